@@ -14,6 +14,9 @@ Definition grp (v : dtv) (r : result (Z * bool)) : list Z :=
 (* op applied to the result of op (idempotence probe) *)
 Definition twice (op : dtv -> result (Z * bool)) (v : dtv) : result (Z * bool) :=
   match op v with Ok r => op (upd v r) | Raise e => Raise e end.
+(* a DateTime-valued intermediate result (previous()/next()) as a group *)
+Definition grpv (v : dtv) (r : result dtv) : list Z :=
+  match r with Ok v' => grp v (Ok (v_W v', v_fold v')) | Raise e => grp v (Raise e) end.
 Definition grpd (r : result Z) : list Z := match r with Ok n => [0; n] | Raise e => [1; exn_code e] end.
 Definition twiced (op : Z -> result Z) (n : Z) : result Z := match op n with Ok r => op r | Raise e => Raise e end.
 
@@ -31,6 +34,10 @@ Definition dispatch (fn : Z) (args : list Z) : list Z :=
           ++ grpd (twiced (date_start_of ws u) n) ++ grpd (twiced (date_end_of we u) n)
     | 3 (* unit_id *), [u; ws; W] => [0; unit_id u ws W]
     | 4 (* render *), [U] => let '(W, f) := render z U in [0; W; Z.b2z f]
+    | 5 (* dt_week_walk *), [kind; W; f; ws; we] =>
+        (* the walks under start_of('week') / end_of('week') observed on their own: previous(ws) and next(we), keep_time=False *)
+        let v := mkdtv z kind W (zb f) in
+        0 :: grpv v (dt_previous v ws) ++ grpv v (dt_next v we)
     | _, _ => [9]
     end
   end.
